@@ -32,6 +32,7 @@ type VC struct {
 	ufs         map[string]bool
 	notes       []string
 	ghostLocalSorts map[string]string
+	heapTrace       map[string]string
 }
 
 type Obligation struct {
